@@ -57,9 +57,10 @@ def ResolverCompatible (args : List ArgD) (r : ResolverD) : Prop :=
   -- every parameter that the call does not fill has a default
   (∀ p ∈ unfedParams r.params args, p.hasDefault = true)
 
+/-- only the fields of OBJECT types are ever resolved; what sits in a resolver slot must be callable -/
 def ResolverOK (s : SchemaD) (rv : Bool) (t : TypeD) (f : FieldD) : Prop :=
-  ∀ r, (pickResolver s t f = some r ∨ f.subscriptionResolver = some r) → rv = true → r.inspectable = true →
-    ResolverCompatible f.args r
+  ∀ r, (pickResolver s t f = some r ∨ f.subscriptionResolver = some r) → rv = true → t.kind = .object →
+    r.callable = true ∧ (r.inspectable = true → ResolverCompatible f.args r)
 
 /-! ### per-rule predicates -/
 
@@ -166,10 +167,13 @@ inductive FieldViol (s : SchemaD) (rv : Bool) (t : TypeD) : Err → Prop
       FieldViol s rv t ⟨.fieldNotOutput, [f.name, t.name, f.type.render]⟩
   | arg {pre f e} : At t.fields pre f →
       ArgViol s .dupArg .argNotInput (t.name ++ "." ++ f.name) f.args e → FieldViol s rv t e
-  | resolver {pre f r e} : At t.fields pre f → pickResolver s t f = some r →
-      rv = true → r.inspectable = true → ResolverViol (t.name ++ "." ++ f.name) f.args r e → FieldViol s rv t e
-  | subscription {pre f r e} : At t.fields pre f → f.subscriptionResolver = some r →
-      rv = true → r.inspectable = true → ResolverViol (t.name ++ "." ++ f.name) f.args r e → FieldViol s rv t e
+  | resolver {pre f r e} : At t.fields pre f → t.kind = .object → pickResolver s t f = some r →
+      rv = true → r.callable = true → r.inspectable = true → ResolverViol (t.name ++ "." ++ f.name) f.args r e → FieldViol s rv t e
+  | subscription {pre f r e} : At t.fields pre f → t.kind = .object → f.subscriptionResolver = some r →
+      rv = true → r.callable = true → r.inspectable = true → ResolverViol (t.name ++ "." ++ f.name) f.args r e → FieldViol s rv t e
+  | notCallable {pre f r} : At t.fields pre f → t.kind = .object →
+      (pickResolver s t f = some r ∨ f.subscriptionResolver = some r) → rv = true → r.callable = false →
+      FieldViol s rv t ⟨.resNotCallable, [t.name ++ "." ++ f.name]⟩
 
 inductive ImplViol (s : SchemaD) (t it : TypeD) : Err → Prop
   | fieldMissing {f} : f ∈ it.fields → fieldMap t f.name = none →
